@@ -80,6 +80,9 @@ pub fn check_frame(c: &FrameCase, st: &mut Stats) -> Result<(), String> {
             if frame.address() != Address(c.addr) || frame.message_type() != MsgType(c.ty) || frame.data().as_ref() != &c.data[..] {
                 return Err(format!("accessors of a new frame do not return the inputs ({how})"));
             }
+            if frame.clone().into_data().get().as_ref() != &c.data[..] {
+                return Err(format!("into_data does not give back the data the frame was built with ({how})"));
+            }
             let enc = frame.to_bytes();
             let enc_nl = frame.to_bytes_with_newline();
             if enc != want {
